@@ -13,7 +13,7 @@ from ..monitors import V
 from ..spaces import all_prio, prog_of, shard_iter, single_selections
 
 ID = "C07"
-BUDGET = {"quick": 100, "thorough": 900}
+BUDGET = {"quick": 240, "thorough": 900}
 MAX_PERM_EXECS = 300
 
 
